@@ -475,3 +475,41 @@ Proof.
   destruct (log_monotone ops1 m0 HL H1) as [L1 _].
   rewrite mux_run_app. destruct (log_monotone ops2 _ L1 H2) as [_ G]. exact G.
 Qed.
+
+(* ---- statements used verbatim by Props/C01.v ---- *)
+Lemma emit_fields prev dts :
+  s_dts (emit_of prev dts) = s_dts prev /\ s_ptsoff (emit_of prev dts) = s_ptsoff prev
+  /\ s_nonsync (emit_of prev dts) = s_nonsync prev /\ s_ntp (emit_of prev dts) = s_ntp prev
+  /\ s_pay (emit_of prev dts) = s_pay prev /\ s_size (emit_of prev dts) = s_size prev
+  /\ s_dur (emit_of prev dts) = u32 (dts - s_dts prev).
+Proof. repeat split. Qed.
+
+Lemma rotations_keep_logs m d ntp f : LI m ->
+  (LI (rotateSegments m d ntp f) /\ forall j, slog (rotateSegments m d ntp f) j = slog m j)
+  /\ (LI (rotateParts m d) /\ forall j, slog (rotateParts m d) j = slog m j).
+Proof. intros HL. split; [apply SameLogs_rotateSegments|apply SameLogs_rotateParts]; exact HL. Qed.
+
+Lemma structure_reachable c m0 ops :
+  start c = Ok m0 -> c_variant c <> MPEGTS -> LI (mux_run m0 ops) /\ forall j, slog m0 j = [].
+Proof. intros Hs Hv. destruct (start_LI c m0 Hs Hv) as [HL H0]. split; [now apply LI_mux_run|exact H0]. Qed.
+
+Definition ex_cfg : cfg :=
+  {| c_variant := LL;
+     c_tracks := [ {| t_kind := H264; t_rate := 90000; t_srate := 0; t_name := 0; t_lang := 0; t_default := false; t_params0 := 1 |};
+                   {| t_kind := AAC; t_rate := 48000; t_srate := 48000; t_name := 0; t_lang := 0; t_default := false; t_params0 := 2 |} ];
+     c_segcount := 7; c_segmin := 1000000000; c_partmin := 200000000; c_segmax := 50000000 |}.
+Definition ex_au (dts : Z) (ra : bool) (id : Z) : au :=
+  {| a_pts := dts; a_dts := dts; a_ntp := 1700000000000000000 + dts * 11111; a_ra := ra; a_nonidr := negb ra;
+     a_params := None; a_units := [(id, 100, 100, 0)] |}.
+Definition ex_ops : list wop :=
+  [WWrite 0 (ex_au 0 true 11); WWrite 0 (ex_au 3000 false 12); WWrite 1 (ex_au 0 true 21); WWrite 0 (ex_au 6000 false 13)].
+
+
+Lemma log_example : exists m0,
+  start ex_cfg = Ok m0 /\ c_variant ex_cfg <> MPEGTS /\ all_ok m0 ex_ops
+  /\ map (fun s => (s_pay s, s_dts s, s_dur s)) (slog (mux_run m0 ex_ops) 0) = [(11, 900000, 3000); (12, 903000, 3000)].
+Proof.
+  destruct (start ex_cfg) as [m0| |] eqn:E; [|vm_compute in E; discriminate|vm_compute in E; discriminate].
+  exists m0. split; [reflexivity|]. split; [discriminate|].
+  vm_compute in E. injection E as <-. split; vm_compute; auto.
+Qed.
